@@ -75,11 +75,7 @@ Definition wf_op_ord (s : mst) (o : op) : bool :=
       let new := normalize_path q in
       wf_name p && wf_name q && negb (beqb old s_slash) &&
       match kind_at s old with
-      | None =>
-          (* a missing source: ENOENT — unless the directory of the source exists and the target passes
-             through a regular file: the OS resolves both directories before it looks for the source
-             and answers ENOTDIR, MemMapFs looks for the source first (finding F4, REPORT-c01p.md) *)
-          no_file_prefix s old && (negb (is_dir_at s (par old)) || no_file_prefix s new)
+      | None => no_file_prefix s old
       | Some isd =>
           beqb old new ||
           (negb (below old new) &&
